@@ -234,8 +234,8 @@ theorem weightsBad_move (k : Nat) (bx bu : Bool) (A B : Aff K) (rows : List (Row
   simp only [List.map_map, Function.comp_def, wsel_move]
 
 /-- from a returned `fit_general` to its normal equations -/
-theorem fitGeneralR_ok (eps : K) (bx bu : Bool) (rows : List (Row K)) (L : Lin K)
-    (h : fitGeneralR eps bx bu rows = .ok L) :
+theorem fitGeneralR_ok (eps epsD : K) (bx bu : Bool) (rows : List (Row K)) (L : Lin K)
+    (h : fitGeneralR eps epsD bx bu rows = .ok L) :
     ¬ rows.length < 3 ∧ weightsBad 3 bx bu rows = false ∧
       gsolve eps (gsumsRow (wsel bx bu) rows) = .ok L := by
   rw [fitGeneralR_eq] at h
@@ -244,6 +244,51 @@ theorem fitGeneralR_ok (eps : K) (bx bu : Bool) (rows : List (Row K)) (L : Lin K
   next hn =>
   split at h
   · cases h
-  next hb => exact ⟨hn, by simpa using hb, h⟩
+  next hb =>
+  split at h
+  · cases h
+  · exact ⟨hn, by simpa using hb, h⟩
+
+/-- the weights of an accepted `fit_general` have a positive sum -/
+theorem wsel_sum_pos (bx bu : Bool) (rows : List (Row K)) (hn : ¬ rows.length < 3)
+    (hbad : weightsBad 3 bx bu rows = false) : 0 < (rows.map (wsel bx bu)).sum := by
+  unfold weightsBad at hbad
+  cases hb : (bx || bu)
+  · have hbx : bx = false := by cases bx <;> simp_all
+    have hbu : bu = false := by cases bu <;> simp_all
+    subst hbx; subst hbu
+    have : (rows.map (wsel (K := K) false false)).sum = (rows.length : K) := by
+      have : (rows.map (wsel (K := K) false false)) = rows.map fun _ => (1 : K) := rfl
+      rw [this, sum_map_const]; ring
+    rw [this]
+    have : 0 < rows.length := by omega
+    exact_mod_cast this
+  · rw [hb] at hbad
+    simp only [Bool.true_and, Bool.or_eq_false_iff, decide_eq_false_iff_not] at hbad
+    exact sum_pos_of_weights _ hbad.1 (by omega)
+
+/-- the errors of `fit_general` other than `singular` are decided before the guard and `inv` -/
+theorem fitGeneralR_error_iff (eps epsD : K) (bx bu : Bool) (rows : List (Row K)) (e : FitErr)
+    (he : e ≠ .singular) :
+    fitGeneralR eps epsD bx bu rows = .error e ↔
+      (if rows.length < 3 then (Except.error .notEnoughPoints : Except FitErr (Lin K))
+       else if weightsBad 3 bx bu rows = true then .error .badWeights
+       else .error .singular) = .error e := by
+  rw [fitGeneralR_eq]
+  split
+  · rfl
+  split
+  · rfl
+  split
+  · rfl
+  · have hS : ∀ s : GSums K, gsolve eps s ≠ .error e := by
+      intro s hs
+      unfold gsolve at hs
+      split at hs
+      · injection hs with hs; exact he hs.symm
+      · cases hs
+    constructor
+    · intro h; exact absurd h (hS _)
+    · intro h; injection h with h; exact absurd h.symm he
 
 end TW
